@@ -94,13 +94,18 @@ fn secret(n: usize) -> Vec<u8> {
 
 /// a second secret of the same length with different octets (anything keyed by the length or a
 /// prefix of the secret alone would confuse the two)
+/// a third secret: NUL first, octets >= 0x80, 0xff last
+fn secret_c(n: usize) -> Vec<u8> {
+    (0..n).map(|i| if i == 0 { 0 } else if i + 1 == n { 0xff } else { 0x80 | (i as u8 & 0x3f) }).collect()
+}
+
 fn secret_b(n: usize) -> Vec<u8> {
     (0..n).map(|i| if i + 1 == n { 0x7a } else { (0x41 + (i * 5) % 57) as u8 }).collect()
 }
 
 fn ap_of(k: u32) -> [u8; 16] {
     match k {
-        0 | 3 => ramp(16).try_into().unwrap(),
+        0 | 3 | 4 | 5 | 6 => ramp(16).try_into().unwrap(),
         1 => [0u8; 16],
         _ => [0xffu8; 16],
     }
@@ -123,9 +128,20 @@ fn check_hide(ctx: &mut Ctx, h: &HideCase) {
     let c12 = ctx.prop == "C12";
     let Some(c) = bridge::avp_to_crate(&h.avp) else { return };
     // ap >= 3 selects the second secret of that length (with the ramp alignment padding)
-    let sec = if h.ap >= 3 { secret_b(h.secret_len) } else { secret(h.secret_len) };
+    let sec = match h.ap {
+        3 | 5 => secret_b(h.secret_len),
+        4 | 6 => secret_c(h.secret_len),
+        _ => secret(h.secret_len),
+    };
     let rv = RandomVector { value: RVS[h.rv] };
-    let lp: Vec<u8> = (0..h.lp_len).map(|i| (0x90 + i % 100) as u8).collect();
+    // length padding contents: distinct octets; all zero (ap 5: what a "strip trailing zeros"
+    // heuristic would eat); copies of the value's last octet (ap 6)
+    let last = spec::payload_of(&h.avp).last().copied().unwrap_or(0);
+    let lp: Vec<u8> = match h.ap {
+        5 => vec![0u8; h.lp_len],
+        6 => vec![last; h.lp_len],
+        _ => (0..h.lp_len).map(|i| (0x90 + i % 100) as u8).collect(),
+    };
     let ap = ap_of(h.ap);
     let plen = spec::payload_of(&h.avp).len();
     let size = plen + h.lp_len + h.secret_len;
@@ -314,7 +330,7 @@ fn run_hide(ctx: &mut Ctx) {
             }
             for (ri, _) in RVS.iter().enumerate() {
                 for &lp in &lps {
-                    for ap in 0..4u32 {
+                    for ap in 0..7u32 {
                         let deviations = (ri != 0) as u32 + (ap != 0) as u32 + (lp != 0) as u32;
                         if !full && deviations > 1 {
                             continue;
